@@ -164,6 +164,11 @@ def _transfer_variants(fn, bb, env, valuation, prog=None):
                 env[("V", d)] = ("Continue",) + tuple(v0[1:])
             elif v0[0] in ("Err", "None"):
                 env[("V", d)] = ("Break",)
+        if v0 and v0[0] in ("Ok", "Err") and (
+                (p.startswith("core::result::Result::<T, E>::") and p.split("::")[-1] in ("map_err", "map", "inspect", "inspect_err")) or
+                ("ResultExt" in p and p.split("::")[-1] in ("with_context", "context", "compat"))):
+            # the outcome (Ok / Err) survives a conversion of the payload
+            env[("V", d)] = (v0[0],)
         if v0 and p.startswith("core::option::Option::<T>::"):
             last = p.split("::")[-1]
             if last == "is_some":
@@ -194,7 +199,7 @@ def _join(a, b):
     return {k: v for k, v in a.items() if b.get(k) == v}
 
 
-def reach_under(fn, atom, variant=None, disabled=(), blocked=(), per_iteration=False, return_envs=False, valuation=None, prog=None, start=None):
+def reach_under(fn, atom, variant=None, disabled=(), blocked=(), per_iteration=False, return_envs=False, valuation=None, prog=None, start=None, start_env=None):
     """Set of blocks reachable from the entry under the assumptions (never entering a block in `blocked`).  With per_iteration the
     assumptions describe one iteration of a loop, earlier iterations being arbitrary: what is known about boolean locals is
     forgotten at every loop head."""
@@ -204,7 +209,7 @@ def reach_under(fn, atom, variant=None, disabled=(), blocked=(), per_iteration=F
     disabled = set(disabled)
     from . import patterns as pt
     dsw = {sw["bb"]: sw for sw in pt.discr_switches(fn, lambda e, rv: True)}
-    envs = {0: {}} if start is None else {b_: {} for b_ in start}
+    envs = {0: dict(start_env or {})} if start is None else {b_: dict(start_env or {}) for b_ in start}
     work = list(envs)
     seen_out = {}
     while work:
